@@ -74,7 +74,8 @@ FINDINGS += [
  K("C02", "C02 IsInSubGroup accepts order-3 points (bw6-633 G1, bw6-761 G2)", "IsInSubGroup (affine and Jacobian) accepts (0, ±sqrt b) of order 3 on bw6-633 G1 and bw6-761 G2 (see C07)", r"^C02 sw bw6-(633\.G1|761\.G2) .* [aj]InSub ", r"^1$", r"^0$", "ecc/bw6-633/g1.go:483, ecc/bw6-761/g2.go:493", ""),
  F("C02", "C02 stark-curve g1JacExtended doubleMixed uses ZZ² instead of a = 1", "09230d9", "stark-curve g1JacExtended.doubleMixed / doubleNegMixed (and the same-point branch of addMixed/subMixed) added the receiver's ZZ² instead of the curve coefficient a = 1 (unexported, reached through the c02shim wrappers)", "C02 sw stark-curve.G1 … xDoubleMixed …", "ecc/stark-curve/g1.go:802,832"),
  # ---- C03
- K("C03", "C03 bandersnatch GLV: sub-scalars reduced modulo the wrong modulus / phi(O)", "bandersnatch scalarMulGLV reduces the sub-scalars modulo the bls12-381 scalar field instead of the subgroup order (wrong results from |s| ≈ 2^640) and phi(O) has Z = 0 so [s]O = (0;0) whenever k2 != 0", r"^C03 tex? \S+ bandersnatch ", r".", r".", "ecc/bls12-381/bandersnatch/endomorpism.go scalarMulGLV", ""),
+ F("C03", "C03 bandersnatch GLV: huge scalars", "66c35a8", "bandersnatch scalarMulGLV stored the sub-scalars in fr.Element words (reduced modulo the base field): wrong results from |s| of about 2^640", "C03 tex aff bandersnatch … <±(k·r+t), 1000 bits>", "ecc/bls12-381/bandersnatch/endomorpism.go scalarMulGLV"),
+ F("C03", "C03 bandersnatch GLV: [s]O", "65ba1db", "phi(O) has Z = 0, so [s]O = (0,0,0) whenever the second sub-scalar was non-zero", "C03 te aff bandersnatch … 0 1 <s>", "ecc/bls12-381/bandersnatch/endomorpism.go scalarMulGLV, phi"),
 ]
 
 FINDINGS += [
